@@ -78,6 +78,18 @@ def pool(seed, tier):
              {'kind': 'scat1', 'biort': 'near_sym_a', 'qshift': 'qshift_a', 'magbias': 1e-2, 'colour': True, 'shape': [9, 8]},
              {'kind': 'scat2', 'biort': 'near_sym_a', 'qshift': 'qshift_a', 'magbias': 1e-2, 'colour': False, 'shape': [16, 16]},
              {'kind': 'scat2', 'biort': 'near_sym_b_bp', 'qshift': 'qshift_b_bp', 'magbias': 1e-2, 'colour': False, 'shape': [16, 12]}]
+    # same construction parameters, other shapes (one module instance serves all of them in a history),
+    # including images so small that deeper levels only see boundary, and both sides not multiples of 8
+    cfgs += [{'kind': 'dwt2f', 'wave': 'db2', 'mode': 'zero', 'J': 2, 'shape': [3, 5]},
+             {'kind': 'dwt2f', 'wave': 'db2', 'mode': 'zero', 'J': 2, 'shape': [24, 20]},
+             {'kind': 'dwt2f', 'wave': 'db4', 'mode': 'symmetric', 'J': 1, 'shape': [5, 6]},
+             {'kind': 'dwt1f', 'wave': 'db4', 'mode': 'zero', 'J': 2, 'shape': [5]},
+             {'kind': 'dwt1f', 'wave': 'db4', 'mode': 'zero', 'J': 2, 'shape': [40]},
+             {'kind': 'dtf', 'biort': 'near_sym_a', 'qshift': 'qshift_a', 'J': 2, 'shape': [4, 6]},
+             {'kind': 'dtf', 'biort': 'near_sym_a', 'qshift': 'qshift_a', 'J': 2, 'shape': [20, 12]},
+             {'kind': 'scat2', 'biort': 'near_sym_a', 'qshift': 'qshift_a', 'magbias': 1e-2, 'colour': False, 'shape': [12, 20]},
+             {'kind': 'scat2', 'biort': 'near_sym_a', 'qshift': 'qshift_a', 'magbias': 1e-2, 'colour': False, 'shape': [9, 13]},
+             {'kind': 'scat1', 'biort': 'near_sym_a', 'qshift': 'qshift_a', 'magbias': 1e-2, 'colour': False, 'shape': [5, 7]}]
     # raising calls
     cfgs += [{'kind': 'dwt1f', 'wave': 'db8', 'mode': 'reflect', 'J': 1, 'shape': [5], 'raises': True},
              {'kind': 'dwt2f', 'wave': 'db8', 'mode': 'reflect', 'J': 2, 'shape': [6, 6], 'raises': True}]
@@ -210,18 +222,24 @@ def hist_main(specfile, cfgjson, out):
         with clock:
             return adapters.Adapter(spec['cfg'], bd)
 
+    def ctor_key(cfg):
+        # construction parameters only: specs that differ in input shape share one module instance
+        return tuple(sorted((k, repr(v)) for k, v in cfg.items() if k not in ('shape', 'raises', 'none_mask')))
+
     def get_module(spec, rnd, fresh):
-        key = (spec['cfg_id'], spec['dtype'])
+        key = (ctor_key(spec['cfg']), spec['dtype'], repr(spec['cfg'].get('none_mask')))
         if fresh:
             return construct(spec), True
         with mlock:
-            ad = modules.get(key)
-        if ad is None:
-            ad = construct(spec)
+            shared = modules.get(key)
+        made = False
+        if shared is None:
+            shared = construct(spec).mod
             with mlock:
-                ad = modules.setdefault(key, ad)
-            return ad, True
-        return ad, False
+                shared = modules.setdefault(key, shared)
+            made = True
+        # a light per-spec view (shapes) around the one shared nn.Module instance
+        return adapters.Adapter(spec['cfg'], mod=shared), made
 
     def compare(spec, rec, arrays, with_grad):
         ref = table.get(spec['id'])
